@@ -38,9 +38,14 @@ PROPS = {
     "C13": ("storewalk", 16, 600, 3600),
     "C05": ("crashwalk", 16, 600, 3600),
     "C17": ("crashwalk", 16, 600, 3600),
+    "C12": ("apiwalk", 12, 600, 3600),
+    "C09": ("apiwalk", 8, 600, 3600),
+    "C10": ("apiwalk", 8, 600, 3600),
+    "C16": ("apiwalk", 16, 600, 3600),
 }
 
 LEVEL = "model_checking"
+LEVELS = {"C05": "fault_enumeration", "C17": "fault_enumeration"}
 
 
 def log(*a):
@@ -281,7 +286,7 @@ def check(prop, tier, replay=None):
         binary = build(engine)
     reports, errors = run_shards(binary, prop, tier, nshards, deadline, seed, replay=replay)
     m = merge(reports)
-    return finish(prop, tier, seed, m, errors, t0, replaying=bool(replay))
+    return finish(prop, tier, seed, m, errors, t0, level=LEVELS.get(prop, LEVEL), replaying=bool(replay))
 
 
 def main(argv):
